@@ -4,7 +4,7 @@ import itertools
 PROPERTY = 'C15'
 LEVEL = 'exploration'
 TIMEOUT_S = 1200
-RULE = ('n_theta in {4,5,8,9} (even and odd: FFT ordering) x chi in {0,1} x adiabatic / kinetic electrons x radial spline path x process grids (the pipeline '
+RULE = ('n_theta in {4,5,8,9} (even and odd: FFT ordering) x chi in {0,1} x adiabatic / kinetic electrons x radial spline path x default or caller-supplied profiles (n0 with n0deriv and Te, n0 with n0derivNormalised, n0deriv alone) x process grids (the pipeline '
         'changes layout twice); densities = unit impulse at every theta index of selected (r,z), every driver-like perturbation mode cos(m theta) incl. the '
         'highest resolved mode, dense, complex dense; oracle: getModes then findPotential is the identity; density -> modes -> per-mode solve -> inverse '
         'transform equals an independent implementation (numpy FFT ordering + the dense Galerkin reference of C14 with the m = 0 convention selected by chi, '
@@ -21,6 +21,12 @@ def cases(tier, seed):
             if tier == 'quick' and g not in ((1, 1), (2, 2)) and (nq, path) not in ((5, 'cu'), (8, 'nu')):
                 continue
             out.append({'kind': 'pipeline', 'nq': nq, 'adiabatic': adiab, 'chi': chi, 'path': path, 'grid': list(g), 'cost': 10 * nq * g[0] * g[1]})
+    # profiles supplied by the caller (density with its derivative, plain or normalised, and an electron temperature), in pairs
+    for nq in ((5,) if tier == 'quick' else (5, 8)):
+        for (adiab, chi) in ((True, 0), (True, 1), (False, None)):
+            for prof in ('n0+n0deriv+Te', 'n0+n0derivNormalised', 'n0deriv-only'):
+                for g in ((1, 1), (2, 2)):
+                    out.append({'kind': 'pipeline', 'nq': nq, 'adiabatic': adiab, 'chi': chi, 'path': 'nu', 'grid': list(g), 'prof': prof, 'cost': 10 * nq * g[0] * g[1]})
     for g in ((1, 1), (2, 2)):
         out.append({'kind': 'equilibrium', 'grid': list(g), 'cost': 300})
     return out
@@ -47,7 +53,11 @@ def _pipeline(case):
     grid = case['grid']
     adiab, chi = case['adiabatic'], case['chi']
     Bf = 1.0 if (adiab and chi == 0 and case.get('path') == 'cu') else 1.3          # equilibrium field strength: 1 (the default) only for one family
-    tag = 'ntheta=%d adiabatic=%s chi=%r path=%s grid=%r' % (nq, adiab, chi, case['path'], grid)
+    prof = case.get('prof', 'default')
+    tag = 'ntheta=%d adiabatic=%s chi=%r path=%s grid=%r profiles=%s' % (nq, adiab, chi, case['path'], grid, prof)
+    n0c = lambda r: 2.0 + np.cos(0.9 * np.asarray(r, dtype=float))                  # noqa  (positive; unrelated to the default profile)
+    n0cd = lambda r: -0.9 * np.sin(0.9 * np.asarray(r, dtype=float))                # noqa
+    Tec = lambda r: 1.5 + 0.5 * np.sin(0.7 * np.asarray(r, dtype=float))           # noqa
     brs = ops.mkspace(nr, c.rMin, c.rMax, 3, False, case['path'] == 'cu')
     eta = [np.asarray(brs.greville, dtype=float), np.linspace(0, 2 * math.pi, nq, endpoint=False), np.linspace(0, 10, nz, endpoint=False)]
     I = np.indices((nr, nz, nq)).astype(float)          # v_parallel_2d ordering (r, z, theta)
@@ -71,6 +81,12 @@ def _pipeline(case):
         rho = Grid(eta, [None] * 3, h, 'v_parallel_2d', comm, dtype=np.complex128)
         phi = Grid(eta, [None] * 3, sw, 'v_parallel_2d', comm, dtype=np.complex128)
         kw = {'chi': chi} if adiab else {}
+        if prof == 'n0+n0deriv+Te':
+            kw.update(n0=n0c, n0deriv=n0cd, Te=Tec)
+        elif prof == 'n0+n0derivNormalised':
+            kw.update(n0=n0c, n0derivNormalised=lambda r: n0cd(r) / n0c(r))
+        elif prof == 'n0deriv-only':
+            kw.update(n0deriv=n0cd)           # divided by the default density
         qn = QuasiNeutralitySolver(eta, 7, brs, c, adiabaticElectrons=adiab, B=Bf, **kw)
         l = rho.getLayout('v_parallel_2d')
         sl = tuple(slice(int(a), int(b)) for a, b in zip(l.starts, l.ends))
@@ -102,6 +118,12 @@ def _pipeline(case):
     n0 = lambda r: ops.n0_ref(c, r)                      # noqa
     Te = lambda r: ops.te_ref(c, r)                      # noqa
     g_ = lambda r: ops.dlogn0_ref(c, r)                  # noqa
+    if prof == 'n0+n0deriv+Te':
+        n0, Te, g_ = n0c, Tec, (lambda r: n0cd(r) / n0c(r))
+    elif prof == 'n0+n0derivNormalised':
+        n0, g_ = n0c, (lambda r: n0cd(r) / n0c(r))
+    elif prof == 'n0deriv-only':
+        g_ = lambda r: n0cd(r) / ops.n0_ref(c, r)        # noqa
     pts, wts = leggauss(7 // 2 + 1)
     br = np.asarray(brs.breaks, dtype=float)
     nb = S.nc
